@@ -80,7 +80,7 @@ func Meta() core.Meta {
 		Rule:       "case = one run: a logged-in real client issues one HTTP call through spnego.Client against a scripted server: every response sequence of length <= 3 (quick) / <= 5 (thorough) over {200, 401 bare Negotiate, 401 Negotiate with reject token, 401 other scheme, 302 same host, 302 other host, 500} followed by each constant tail is enumerated; method {GET, HEAD, POST, PUT}, body size {0, 1, 4 KiB, 1 MiB}, how much of the body the server reads before answering {all, k bytes, none}, explicit or URL-derived SPN (port, trailing dot, CNAME, failed look-up, upper case) and the etype of the service ticket are drawn per case; seeded runs also spell the challenge in the other legal forms (second header field after Basic, list in one field, lower case), hand Do a request that already carries an Authorization header, and reuse the client after earlier calls; distinct = distinct (script, tail, method, body class, read class, SPN class, outcome); non-trivial = the server sent at least one challenge or redirect",
 		SweepQuick: scriptsUpTo(3), SweepThorough: scriptsUpTo(5),
 		SeededQuick: 1500, SeededThorough: 60000,
-		WorkloadProbes: []string{"challenged", "challenged-with-body", "early-response-before-body-read", "ever-challenging-tail", "ever-redirecting-tail", "periodic-tail", "reused-client", "reused-client-after-redirect-limit", "reused-client-after-ticket-expiry", "challenge-in-other-legal-form", "request-arrives-with-authorization-header", "redirect-after-reuse", "cross-realm-service", "redirect-then-challenge", "spn-derived-via-cname", "spn-derived-lookup-failed", "token-checked-by-acceptor"},
+		WorkloadProbes: []string{"challenged", "challenged-with-body", "early-response-before-body-read", "ever-challenging-tail", "ever-redirecting-tail", "periodic-tail", "reused-client", "reused-client-after-redirect-limit", "reused-client-after-ticket-expiry", "challenge-in-other-legal-form", "request-arrives-with-authorization-header", "redirect-after-reuse", "cross-realm-service", "redirect-then-challenge", "spn-derived-via-cname", "spn-derived-lookup-failed", "token-checked-by-acceptor", "kdc-unreachable-during-the-call"},
 		Components: map[string]string{
 			"spnego.Client (Do/Get/Post/Head), SetSPNEGOHeader, setRequestSPN, SPNEGOClient, NewNegTokenInitKRB5, NewKRB5TokenAPREQ, krb5 client, token encoders": "real",
 			"net/http client (redirect policy, cookie jar)": "real",
